@@ -95,3 +95,10 @@ package phase5
 //@     invariant forall t int :: 0 <= t && t < len(r.Points) - 1 ==> axisAligned(r.Points[t], r.Points[t+1])
 //@     invariant i > 1 ==> r.Points[0][0] == startX(r.ns[0]) && r.Points[0][1] == startY(r.ns[0])
 //@     invariant i > 1 ==> r.Points[len(r.Points)-1][0] == startX(r.ns[i-1]) && r.Points[len(r.Points)-1][1] == endY(r.ns[i-1])
+
+//@ func orderedNodes
+//@   requires e != nil && e.From != nil && e.To != nil
+//@   ensures e.From.Layer < e.To.Layer ==> u == e.From && v == e.To
+//@   ensures e.From.Layer > e.To.Layer ==> u == e.To && v == e.From
+//@   ensures e.From.Layer == e.To.Layer ==> (e.From.LayerPos < e.To.LayerPos ? (u == e.From && v == e.To) : (u == e.To && v == e.From))
+//@   modifies nothing
